@@ -1,13 +1,20 @@
 PROP = {
     "level": "exploration",
     "technique": ("runtime monitor over the real lnwire/tlv codecs: totality (no panic / process-fatal, allocation bound), "
-                  "byte fixpoint b->m1->b1->m2->b2, lossless round trip of generated values, differential oracle "
+                  "byte fixpoint b->m1->b1->m2->b2, lossless round trip of generated values and of harness-built boundary "
+                  "values (every variable-length field at 0/1/representation boundaries/field limit/largest that fits "
+                  "65535, refusals judged against the harness's own size computation), differential oracle "
                   "(independent canonical-TLV recogniser) for tlv.Stream"),
     "level_text": ("Every message type accepted by makeEmptyMessage (plus custom types) and every onion failure code "
                    "(message and padded packet form) is decoded from generated valid encodings (lnwire's own rapid "
                    "generators driven deterministically by the case seed), structure-aware mutants of them and raw bytes; "
                    "every accepted input must reach a byte fixpoint after one re-encode, generated values must round-trip "
-                   "losslessly within 65535 bytes; the TLV extension of every message that has one is mutated in isolation "
+                   "losslessly within 65535 bytes; on every visit of a message type every variable-length field of it (addresses of all "
+                   "kinds incl. dns hostnames of 1,2,63,64,127,128,251-255 bytes and address lists filling the message, feature "
+                   "vectors, alias, scripts, error/warning data, ping/pong padding, reasons, blobs, extra opaque data, custom records, "
+                   "htlc signature counts, scid lists plain/zlib, timestamps, nonce maps) is put at its boundary lengths and "
+                   "round-tripped (oracle wellformed_roundtrip: own-encoding-rejected / reencode-differs / value-differs / "
+                   "encode-refused-within-limits); the TLV extension of every message that has one is mutated in isolation "
                    "(record lengths, non-minimal BigSize, swap/dup/truncate/lower type) and an accepted message must carry an "
                    "extension that an independent BOLT-1 walker accepts; in module tlv the four Stream decode entry points must accept exactly "
                    "the streams an independent reference recogniser calls canonical and re-encode them byte-identically."),
@@ -24,6 +31,12 @@ PROP = {
                     "ext_accept_implies_canonical is a diagnostic for the 9 message types whose Decode keeps the extension as "
                     "opaque bytes on the pinned tree (stfu, dyn_reject, update_fail_htlc, update_fee, update_fail_malformed_htlc, "
                     "announcement_signatures, query_short_channel_ids, reply_short_channel_ids_end, kickoff_sig)",
+                    "wellformed_roundtrip: the extra data of messages whose Encode rebuilds the extension from typed records "
+                    "(open/accept_channel, funding_*, channel_ready, closing_*, revoke_and_ack, channel_reestablish, channel_update, "
+                    "query/reply_channel_range, gossip_timestamp_range) is not a free field of a value (see KF-C10-6) and is not "
+                    "varied; values that exceed a documented field limit (script > 34, alias2 of 0 or > 32 bytes, > 16 nonces, "
+                    "> 100000 scids, hostname > 255) are not generated; two dns addresses in one node_announcement and a 1-byte "
+                    "(non-TLV) extension are diagnostics only",
                     "ext_reencode_reproduces_input is a diagnostic; its narrowly fingerprinted sub-case unknown_records_preserved "
                     "(exactly the unknown-type records missing after re-encode) is verdict-bearing and matched by KF-C10-6"],
     "eval_counter": "decodes",
@@ -34,22 +47,40 @@ PROP = {
     "units": [
         {
             "name": "lnwire", "pkg": "lnwire", "test": "TestVerifC10",
-            "files": ["lnwire/c10_test.go"],
+            "files": ["lnwire/c10_test.go", "lnwire/c10wf_test.go"],
             "shards": {"quick": 8, "thorough": 16},
             "fatal_is_violation": True,
             "floors": {"quick": {"decodes": 225000, "accepted": 70000, "rejected": 150000, "fixpoint_evals": 59000,
                                  "lossless_evals": 2280, "alloc_evals": 95000, "ext_decodes": 36000,
                                  "ext_accept_implies_canonical_evals": 12000, "ext_reencode_evals": 2900,
-                                 "unknown_records_preserved_evals": 2900},
+                                 "unknown_records_preserved_evals": 2900,
+                                 # well-formed boundary values (c10wf_test.go); the per-round volumes are
+                                 # fixed by construction, floors = half of the measured value
+                                 "wf_values": 4578, "wellformed_roundtrip_evals": 4264, "wf_roundtrip_ok": 4204,
+                                 "wf_roundtrip_ok_at_limit": 508, "wf_encode_refused_oversize": 310, "wf_addrs": 54,
+                                 "wf_addrs_dns": 396, "wf_addrs_maxfit": 54, "wf_alias": 48, "wf_bigsize": 96,
+                                 "wf_blob": 198, "wf_custom_records": 330, "wf_custom_records_nearlimit": 180,
+                                 "wf_data": 96, "wf_ext": 1128, "wf_ext_nearlimit": 324, "wf_features": 792,
+                                 "wf_na2_addrs": 144, "wf_nonces": 60, "wf_padding": 96, "wf_reason": 54,
+                                 "wf_scids_plain": 96, "wf_scids_zlib": 120, "wf_script": 210, "wf_sigs": 54,
+                                 "wf_timestamps": 48},
                        "thorough": {"decodes": 7500000, "accepted": 2300000, "rejected": 5000000,
                                     "fixpoint_evals": 1900000, "lossless_evals": 76000, "alloc_evals": 3200000,
                                     "ext_decodes": 1200000, "ext_accept_implies_canonical_evals": 400000,
-                                    "ext_reencode_evals": 95000}},
+                                    "ext_reencode_evals": 95000,
+                                    "wf_values": 152600, "wellformed_roundtrip_evals": 142133, "wf_roundtrip_ok": 140133,
+                                    "wf_roundtrip_ok_at_limit": 16933, "wf_encode_refused_oversize": 10333,
+                                    "wf_addrs": 1800, "wf_addrs_dns": 13200, "wf_addrs_maxfit": 1800, "wf_alias": 1600,
+                                    "wf_bigsize": 3200, "wf_blob": 6600, "wf_custom_records": 11000,
+                                    "wf_custom_records_nearlimit": 6000, "wf_data": 3200, "wf_ext": 37600,
+                                    "wf_ext_nearlimit": 10800, "wf_features": 26400, "wf_na2_addrs": 4800,
+                                    "wf_nonces": 2000, "wf_padding": 3200, "wf_reason": 1800, "wf_scids_plain": 3200,
+                                    "wf_scids_zlib": 4000, "wf_script": 7000, "wf_sigs": 1800, "wf_timestamps": 1600}},
             "watchdog": {"quick": 900, "thorough": 10800},
         },
         {
             "name": "lnwire_race", "pkg": "lnwire", "test": "TestVerifC10Race",
-            "files": ["lnwire/c10_test.go"],
+            "files": ["lnwire/c10_test.go", "lnwire/c10wf_test.go"],
             "tiers": ["thorough"],
             "race": {"quick": True, "thorough": True},
             "shards": {"quick": 8, "thorough": 16},
